@@ -21,7 +21,7 @@ def run(rep, tier):
     F = cx.F
     roots = ["helpers::" + h for h in HELPERS if ("helpers::" + h) in F.fns]
     rep.ob("anchor", "helpers", len(roots) >= 6, "public helpers present", expected=HELPERS, found=roots)
-    ra = rep.rule("R19.a", "panic inventory of the helpers", floor=15)
+    ra = rep.rule("R19.a", "panic inventory of the helpers", floor=8)
     inv = cx.inventory()
     sites, reach = inv.run(roots)
     rep.analysed(*sorted(reach))
@@ -130,57 +130,117 @@ def _sh(t):
         return repr(t)[:120]
 
 
+def _flat_sum(t, consts, terms):
+    if isinstance(t, tuple) and t and t[0] == "op" and t[1] == "add":
+        _flat_sum(t[3], consts, terms)
+        _flat_sum(t[4], consts, terms)
+    elif T.is_k(t):
+        consts.append(t[2])
+    else:
+        terms.append(t)
+
+
+def _digit_term(t, x):
+    """(constant contribution, True) when t is an exact count-of-hex-digits-minus-constant term of x"""
+    txt = _sh(t)
+    xs = _re_escape(_sh(x))
+    import re as _re
+    if _re.fullmatch(r"zext64\(core::num::<impl u64>::ilog\(%s, 0x10\)\)" % xs, txt) or \
+            _re.fullmatch(r"udiv64\(zext64\(core::num::<impl u64>::ilog2\(%s\)\), 4\)" % xs, txt) or \
+            _re.fullmatch(r"zext64\(udiv32\(core::num::<impl u64>::ilog2\(%s\), 4\)\)" % xs, txt):
+        return 1          # digits = 1 + term
+    if _re.fullmatch(r"udiv64\(sub64\(0x43, zext64\(core::num::<impl u64>::leading_zeros\(%s\)\)\), 4\)" % xs, txt) or \
+            _re.fullmatch(r"udiv64\(add64\(0x43, neg64\(zext64\(core::num::<impl u64>::leading_zeros\(%s\)\)\)\), 4\)" % xs, txt):
+        return 0          # digits = term
+    return None
+
+
+def _re_escape(s_):
+    import re as _re
+    return _re.escape(s_)
+
+
 def _trace_printf_count(F):
+    """the value bpf_trace_printf returns, by evaluating the function: on every path it is the length of the fixed text
+    (the println! template with each hole replaced by `0x`, plus the newline) plus, for each printed argument, 1 when the
+    argument is 0 and an exact integer count of hexadecimal digits otherwise - wherever that count is computed (closure,
+    helper function, inline)"""
     import re as _re
     path = "helpers::bpf_trace_printf"
     fn = F.fns.get(path)
     out = {"digits": (False, "missing"), "fixed-text": (False, "missing")}
     if not fn or not fn.get("thir"):
         return False, out
-    # the closure that sizes one argument
-    clos = [p for p in F.fns if p.startswith(path + "::{closure") and F.fns[p].get("thir")]
-    ev = symex.Evaluator(F)
-    x = T.V("x", 64)
-    good, found = False, "%d closures" % len(clos)
-    if len(clos) == 1:
-        tys = repr(F.fns[clos[0]]["thir"]["body"])
-        uses_float = "'f64'" in tys or "'f32'" in tys
-        outs = ev.run_fn(clos[0], [x]) or []
-        zero = [v for v, s in outs if T.cmp("eq", 64, T.K(64, 0), x) in s.conds or T.cmp("eq", 64, x, T.K(64, 0)) in s.conds]
-        nonz = [v for v, s in outs if T.cmp("ne", 64, T.K(64, 0), x) in s.conds or T.cmp("ne", 64, x, T.K(64, 0)) in s.conds]
-        def is_ilog16(v):
-            # 1 + zext(ilog(x, 16))  |  1 + ilog2(x) / 4  |  (67 - leading_zeros(x)) / 4
-            txt = _sh(v)
-            return bool(_re.fullmatch(r"add64\(1, zext64\(core::num::<impl u64>::ilog\(x, 0x10\)\)\)", txt) or
-                        _re.fullmatch(r"add64\(1, udiv64\(zext64\(core::num::<impl u64>::ilog2\(x\)\), 4\)\)", txt) or
-                        _re.fullmatch(r"add64\(1, zext64\(udiv32\(core::num::<impl u64>::ilog2\(x\), 4\)\)\)", txt) or
-                        _re.fullmatch(r"udiv64\(sub64\(0x43, zext64\(core::num::<impl u64>::leading_zeros\(x\)\)\), 4\)", txt) or
-                        _re.fullmatch(r"udiv64\(add64\(0x43, neg64\(zext64\(core::num::<impl u64>::leading_zeros\(x\)\)\)\), 4\)", txt))
-        good = not uses_float and len(zero) == 1 and zero[0] == T.K(64, 1) and len(nonz) == 1 and is_ilog16(nonz[0])
-        found = {"floating point": uses_float, "x == 0": [_sh(v) for v in zero], "x != 0": [_sh(v)[:90] for v in nonz]}
-        if not good and not uses_float:
-            lp = _digit_loop(F, ev, clos[0])
-            if lp is True:
-                good, found = True, "digit-counting loop: d = 1; while x >= 16 { x /= 16; d += 1 }"
-            elif lp:
-                found = dict(found, loop=lp)
-    out["digits"] = (good, found)
-    # the fixed text
     tmpl = None
-    lits = []
     for n in walk(fn["thir"]["body"]):
         if n.get("k") == "call" and n.get("snip") and "println" in (n.get("snip") or "")[:12]:
             m = symex._FMT_RE.match(n["snip"])
             if m:
                 tmpl = m.group(1)
-        if n.get("k") == "lit" and isinstance(n.get("v"), str) and "bpf_trace_printf" in n["v"]:
-            lits.append(n["v"])
-    want = None
-    if tmpl is not None:
-        want = _re.sub(r"\{[^{}]*:#x\}", "0x", tmpl) + "\n"
-    okt = want is not None and want in lits and "{" not in want
-    out["fixed-text"] = (okt, {"template": tmpl, "expected literal": want, "literals": lits})
-    return good and okt, out
+    want = (_re.sub(r"\{[^{}]*:#x\}", "0x", tmpl) + "\n") if tmpl is not None else None
+    holes = _re.findall(r"\{(\w*):#x\}", tmpl or "")
+    pnames = [q["pat"]["name"] if q["pat"] and q["pat"].get("k") == "bind" else None for q in fn["thir"]["params"]]
+    args = [T.V("a%d" % (k + 1), 64) for k in range(len(pnames))]
+    printed = [args[pnames.index(h)] for h in holes if h in pnames]
+    if want is None or "{" in want or len(printed) != len(holes) or not printed:
+        out["fixed-text"] = (False, {"template": tmpl})
+        return False, out
+    fixed = len(want.encode())
+    # the function(s) / closure(s) that count the digits of one argument
+    helpers_ = [p for p in F.fns if (p.startswith(path + "::{closure") or (p.startswith("helpers::") and p != path and F.fns[p].get("thir")
+                and len(F.fns[p]["thir"]["params"]) == 1 and F.fns[p]["thir"]["params"][0].get("ty") == "u64"
+                and any(callee_path(c) == p for c in walk(fn["thir"]["body"]) if c.get("k") == "call"))) and F.fns[p].get("thir")]
+    uses_float = any(("'f64'" in repr(F.fns[p]["thir"]["body"]) or "'f32'" in repr(F.fns[p]["thir"]["body"])) for p in helpers_ + [path])
+    ev = symex.Evaluator(F, opaque_calls=lambda q: q.endswith("_print") or "std::io" in q)
+    loop_helper = None
+    for h in helpers_:
+        if any(n.get("k") == "loop" for n in walk(F.fns[h]["thir"]["body"])):
+            lp = _digit_loop(F, symex.Evaluator(F), h)
+            if lp is True:
+                loop_helper = h
+            else:
+                out["digits"] = (False, {"loop": lp})
+                out["fixed-text"] = (True, {"template": tmpl, "length": fixed})
+                return False, out
+    if loop_helper:
+        ev = symex.Evaluator(F, opaque_calls=lambda q: q == loop_helper or q.endswith("_print") or "std::io" in q)
+    outs = [(v, s) for v, s in (ev.run_fn(path, list(args)) or []) if s.feasible and not (s.exit is not None and s.exit[0] == "panic")]
+    probs, fixed_seen = [], set()
+    if uses_float:
+        probs.append("floating point in the digit count")
+    if not outs:
+        probs.append("the function is not evaluable")
+    for v, s in outs:
+        consts, terms = [], []
+        _flat_sum(v, consts, terms)
+        c = sum(consts) & ((1 << 64) - 1)
+        left = list(terms)
+        for a in printed:
+            zero = T.cmp("eq", 64, a, T.K(64, 0)) in s.conds or T.cmp("eq", 64, T.K(64, 0), a) in s.conds
+            hit = None
+            for t in left:
+                if loop_helper and isinstance(t, tuple) and t[0] == "call" and t[1] == loop_helper and t[2] == (a,):
+                    hit = (t, 0)
+                    break
+                k = _digit_term(t, a)
+                if k is not None:
+                    hit = (t, k)
+                    break
+            if hit:
+                left.remove(hit[0])
+                c -= hit[1]
+            elif zero:
+                c -= 1
+            else:
+                probs.append("no exact digit count for %s in %s" % (_sh(a), _sh(v)[:120]))
+        if left:
+            probs.append("extra summand %s" % _sh(left[0])[:100])
+        fixed_seen.add(c)
+    okd = not probs
+    out["digits"] = (okd, sorted(set(probs))[:3] or ("per argument: 1 for 0, else an integer base-16 logarithm + 1 (%d paths)" % len(outs)))
+    okt = fixed_seen == {fixed}
+    out["fixed-text"] = (okt, {"template": tmpl, "length of the fixed text": fixed, "constant in the returned sum": sorted(fixed_seen)})
+    return okd and okt, out
 
 
 def _digit_loop(F, ev, path):
@@ -243,12 +303,21 @@ def _strcmp_scan(F, ev):
     full = ev.run_fn("helpers::strcmp", [T.V("a%d" % i, 64) for i in range(1, 6)]) or []
     owner = ev.owner_of("helpers::strcmp")
     A, B, X, Y = T.V("A", 64), T.V("B", 64), T.V("X", 8), T.V("Y", 8)
-    want_names = None
-    for names in (("a", "b", "a_val", "b_val"),):
-        if all(nm in ids for nm in names):
-            want_names = names
-    if want_names is None:
-        return False, "scan variables not found: %s" % sorted(ids)
+    # the scan variables are found by role, not by name: two u64 cursors initialised from the first two parameters,
+    # two u8 values initialised by reading through the cursors
+    pnames0 = [q["pat"]["name"] for q in fn["thir"]["params"] if q["pat"] and q["pat"]["k"] == "bind"]
+    lets = []
+    for n in walk(body):
+        if n.get("k") == "block":
+            for st_ in n["stmts"]:
+                if st_["k"] == "let" and st_["pat"].get("k") == "bind" and st_.get("init"):
+                    vs = [x.get("name") for x in walk(st_["init"]) if x.get("k") in ("var", "upvar")]
+                    lets.append((st_["pat"]["name"], st_["pat"].get("ty"), vs, any(x.get("k") == "deref" for x in walk(st_["init"]))))
+    cur = [next((nm for nm, ty, vs, d in lets if ty == "u64" and vs == [pn] and not d), None) for pn in pnames0[:2]]
+    val = [next((nm for nm, ty, vs, d in lets if ty == "u8" and vs == [c] and d), None) for c in cur]
+    if None in cur or None in val:
+        return False, "scan variables not found: cursors %s, bytes %s" % (cur, val)
+    want_names = (cur[0], cur[1], val[0], val[1])
     st = symex.St()
     for nm, val in zip(want_names, (A, B, X, Y)):
         st = st.set((owner, ids[nm]), val)
@@ -260,7 +329,7 @@ def _strcmp_scan(F, ev):
     c = cont[0]
     env = {nm: c.env.get((owner, ids[nm])) for nm in want_names}
     a1, b1 = T.op("add", 64, A, T.K(64, 1)), T.op("add", 64, B, T.K(64, 1))
-    want_env = {"a": a1, "b": b1, "a_val": ("load", 8, a1), "b_val": ("load", 8, b1)}
+    want_env = {want_names[0]: a1, want_names[1]: b1, want_names[2]: ("load", 8, a1), want_names[3]: ("load", 8, b1)}
     conj = set()
     for x in c.conds:
         stack = [x]
@@ -285,48 +354,44 @@ def _strcmp_scan(F, ev):
                 if st2["k"] == "let" and st2["pat"].get("k") == "bind" and st2["pat"]["name"] in want_names and st2.get("init"):
                     vs = [x.get("name") for x in walk(st2["init"]) if x.get("k") in ("var", "upvar")]
                     src[st2["pat"]["name"]] = (vs, any(x.get("k") == "deref" for x in walk(st2["init"])))
-    want_src = {"a": ([pnames[0]], False), "b": ([pnames[1]], False), "a_val": (["a"], True), "b_val": (["b"], True)}
+    want_src = {want_names[0]: ([pnames[0]], False), want_names[1]: ([pnames[1]], False), want_names[2]: ([want_names[0]], True), want_names[3]: ([want_names[1]], True)}
     if src != want_src:
         return False, "initial values: %s" % src
     return True, "one-byte steps on both cursors; continues while equal and non-NUL"
 
 
 def _memfrob_shape(F, fn):
+    """one iteration of memfrob's loop, evaluated symbolically: exactly one byte store at ptr + i of the byte XOR 42,
+    i running over 0..len in steps of one (either loop spelling); the function returns 0"""
+    import models
     if not fn:
         return False, "missing"
-    th = fn["thir"]
-    names = [p["pat"]["name"] for p in th["params"] if p["pat"] and p["pat"]["k"] == "bind"]
-    if len(names) < 2:
-        return False, "parameters"
-    ptr, ln = names[0], names[1]
-    body = strip(th["body"])
-    # range 0..len feeding the loop
-    ranges = [n for n in walk(body) if n.get("k") == "adt" and n["path"].endswith("ops::Range")]
-    if len(ranges) != 1:
-        return False, "%d ranges" % len(ranges)
-    r = ranges[0]
-    s, e = strip(r["fields"]["start"]), strip(r["fields"]["end"])
-    if not (s.get("k") == "lit" and s.get("v") == 0 and e.get("k") == "var" and e["name"] == ln):
-        return False, "range is not 0..len"
-    ops = [n for n in walk(body) if n.get("k") == "assignop"]
-    if len(ops) != 1 or ops[0]["op"] != "BitXorAssign":
-        return False, "%d compound assignments" % len(ops)
-    o = ops[0]
-    rhs = strip(o["r"])
-    if not (rhs.get("k") == "lit" and rhs.get("v") == 0x2a):
-        return False, "xor constant"
-    lhs = strip(o["l"])
-    if lhs.get("k") != "deref" or lhs.get("ty") != "u8":
-        return False, "target is not a u8 dereference"
-    # pointer = (ptr + i) as *mut u8 where i is the loop variable
-    adds = [n for n in walk(body) if n.get("k") == "bin" and n["op"] == "Add"]
-    if len(adds) != 1:
-        return False, "%d additions" % len(adds)
-    l, r2 = strip(adds[0]["l"]), strip(adds[0]["r"])
-    if not (l.get("k") == "var" and l["name"] == ptr and r2.get("k") == "var" and r2["name"] not in (ptr, ln)):
-        return False, "address is not ptr + i"
-    tail = strip(body.get("tail")) if body.get("k") == "block" else None
+    path = "helpers::memfrob"
+    ev = symex.Evaluator(F)
+    owner = ev.owner_of(path)
+    st = symex.St()
+    syms = []
+    for k, q in enumerate(fn["thir"]["params"]):
+        v = T.V("a%d" % (k + 1), 64)
+        syms.append(v)
+        if q["pat"] and q["pat"].get("k") == "bind":
+            st = st.set((owner, q["pat"]["id"]), v)
+    info, why = models.counting_loop(F, ev, path, st)
+    if info is None:
+        return False, why
+    ptr, ln, I = syms[0], syms[1], info["I"]
+    if info["start"] != T.K(64, 0) or info["bound"] != ln or not info["step_ok"]:
+        return False, "the counter does not run over 0..len in steps of one (start %s, bound %s)" % (_sh(info["start"]), _sh(info["bound"]))
+    live = [s2 for s2 in info["states"] if not (s2.exit is not None and s2.exit[0] == "panic")]
+    if len(live) != 1 or (live[0].exit is not None and live[0].exit[0] != "continue"):
+        return False, "%d paths through one iteration" % len(live)
+    addr = T.op("add", 64, ptr, I)
+    stores = [e for e in live[0].effects if e[0] in ("store", "atomic_add")]
+    want = ("store", 8, addr, T.op("xor", 8, ("load", 8, addr), T.K(8, 42)))
+    if stores != [want]:
+        return False, "stores of one iteration: %s" % [(_sh(e[2]), _sh(e[3])) for e in stores if len(e) > 3][:2]
+    body = strip(fn["thir"]["body"])
+    tail = strip(body.get("tail")) if body.get("k") == "block" and body.get("tail") is not None else None
     if not (tail and tail.get("k") == "lit" and tail.get("v") == 0):
         return False, "result is not 0"
-    stores = [n for n in walk(body) if n.get("k") in ("assign",) ]
-    return True, "shape matches"
+    return True, "for i in 0..len: *(ptr + i) ^= 42; 0"
